@@ -135,14 +135,32 @@ def build_go(cmds):
     logs = []
     ok = True
     for c in cmds:
+        # build next to the target and move it into place only when it differs: a check that is running
+        # the binary at this moment (another property's run) keeps its copy
+        tmp = os.path.join(BIN, ".%s.%d.tmp" % (c, os.getpid()))
         if c.endswith(".race"):
             # race-detector build of the same command (thorough tier of C18)
-            p = run(["go", "build", "-race", "-tags", "verif", "-o", os.path.join(BIN, c), "./cmd/" + c[:-5]], cwd=HARNESS, env=goenv(True), timeout=1800)
+            p = run(["go", "build", "-race", "-tags", "verif", "-o", tmp, "./cmd/" + c[:-5]], cwd=HARNESS, env=goenv(True), timeout=1800)
         else:
-            p = run(["go", "build", "-tags", "verif", "-o", os.path.join(BIN, c), "./cmd/" + c], cwd=HARNESS, env=goenv(True), timeout=900)
+            p = run(["go", "build", "-tags", "verif", "-o", tmp, "./cmd/" + c], cwd=HARNESS, env=goenv(True), timeout=900)
         if p.returncode != 0:
             ok = False
             logs.append(p.stdout)
+            try:
+                os.remove(tmp)
+            except OSError:
+                pass
+            continue
+        dst = os.path.join(BIN, c)
+        same = False
+        try:
+            same = os.path.getsize(dst) == os.path.getsize(tmp) and open(dst, "rb").read() == open(tmp, "rb").read()
+        except OSError:
+            pass
+        if same:
+            os.remove(tmp)
+        else:
+            os.replace(tmp, dst)
     return ok, "\n".join(logs)
 
 def build_all(lean_targets, go_cmds):
